@@ -297,6 +297,9 @@ def prop(case, ctx):
             if r['calls'] != 1:
                 fail('Python function called %d times' % r['calls'])
             exp_args = [expected_arg(mod, t, v, r['ptrs'][q]) for q, (t, v) in enumerate(zip(sig['args'], inv['args']))]
+            if r['args'] is None:
+                fail('the Python function was entered but its arguments could not be read back '
+                     '(recording them raised inside the callback)', passed=exp_args)
             if r['args'] != exp_args:
                 bad = [q for q in range(len(exp_args)) if q >= len(r['args']) or r['args'][q] != exp_args[q]]
                 fail('argument %s received by the Python function differs from what C passed' % bad,
